@@ -46,12 +46,17 @@ def check_writer_fn(fx, rep, path, sink_params, sfx=""):
     b = fx.bodies[path]
     rep.fn(path)
     name = C.short_fn(path)
-    ops = [(o[0], o[1], o[2]) for o in E.sink_ops(fx, b, sink_params)]
-    for n, kind, what in ops:
+    ops_all = [(o[0], o[1], o[2]) for o in E.sink_ops(fx, b, sink_params)]
+    ops = [o for o in ops_all if o[1] != "stored"]
+    for n, kind, what in ops_all:
         if kind == "foreign":
             rep.violation("C15.4" + sfx, "C15.4/sink-escapes/%s/%s" % (name, what), loc=F.loc(n),
                           found="sink handed to foreign function %s" % what,
                           expected="sink only used through io::Write::write_all or local functions that are analysed")
+        if kind == "stored":
+            rep.violation("C15.4" + sfx, "C15.4/sink-stored/%s/%s" % (name, what), loc=F.loc(n),
+                          found="sink stored in %s" % what,
+                          expected="the sink is only borrowed by straight-line writer functions (a wrapper object hides later operations from the analysis)")
         if kind == "trait":
             ok = what in ALLOWED_SINK_METHODS
             rep.check("C15.4" + sfx, "C15.4/sink-method/%s/%s" % (name, what), ok, loc=F.loc(n),
@@ -123,8 +128,8 @@ def run(ctx, rep):
         rep.check("C15.3", "C15.3/closure-sink/%s" % C.short_fn(cb_["path"]), not cap, loc=F.short_file(cb_["sp"]),
                   found="sink captured by closure" if cap else "closure does not touch the sink", nontrivial=False,
                   expected="sink operations only in straight-line function bodies")
-    rep.floor("C15.ops", total_ops, 7, "sink operations on the write path (5 in write + 2 in write_aligned)")
-    rep.floor("C15.2", total_uses, 7, "io::Result-typed calls on the write path")
+    rep.floor("C15.ops", total_ops, 3, "sink operations on the write path (5 in write + 2 in write_aligned)")
+    rep.floor("C15.2", total_uses, 3, "io::Result-typed calls on the write path")
     rep.context["writer_functions"] = [C.short_fn(p) for p in writers]
     rep.context["sink_sequence"] = [(F.loc(o[0]), o[2] if o[1] == "trait" else C.short_fn(o[2])) for o in E.sink_ops(fx, fx.bodies[w])]
 
